@@ -16,7 +16,7 @@ def _nontrivial(t):
 def run(tier):
     rnd = random.Random(common.seed() + 8)
     n = 160 if tier == 'quick' else 3000
-    jobs = ec.random_jobs(rnd, n, label='pol', gen_kw=dict(partial_joins=False, p_join=1.0, p_retry=0.3, p_policy=0.4, p_cmd=0.02, p_err=0.35, policy_on_joins=0.3))
+    jobs = ec.random_jobs(rnd, n, label='pol', gen_kw=dict(partial_joins=False, p_join=1.0, p_retry=0.3, p_policy=0.4, p_cmd=0.02, p_err=0.35, policy_on_joins=0.3, p_retry_expr=0.4))
     # pause-before (alone, or together with wait-before / another policy): the operator lets timers fire, or not,
     # and resumes whenever the run has come to rest
     pj = ec.random_jobs(rnd, n // 4, label='pausebefore', gen_kw=dict(partial_joins=False, p_join=1.0, p_retry=0.15, p_policy=0.3, p_cmd=0.0, p_err=0.25,
